@@ -191,3 +191,41 @@ func addrOfFieldOrCopy(v ssa.Value, f *types.Var) bool {
 	}
 	return n == 1 && okCopy
 }
+
+// literalFields: the fields of a struct literal — a local composite literal, or a package-level variable that is
+// initialised once by the package initialiser and never written anywhere else (an effectively constant literal).
+func (w *World) literalFields(v ssa.Value) (map[string]ssa.Value, bool) {
+	if f, al := complitFields(v); al != nil {
+		return f, true
+	}
+	v = origin(v)
+	u, ok := v.(*ssa.UnOp)
+	if !ok || u.Op != token.MUL {
+		return nil, false
+	}
+	g, ok := u.X.(*ssa.Global)
+	if !ok {
+		return nil, false
+	}
+	out := map[string]ssa.Value{}
+	constant := true
+	for _, f := range w.Funcs {
+		allInstrs(f, func(in ssa.Instruction) {
+			st, isSt := in.(*ssa.Store)
+			if !isSt || rootOf(st.Addr) != ssa.Value(g) {
+				return
+			}
+			if f.Name() != "init" {
+				constant = false
+				return
+			}
+			if fp := fieldPath(st.Addr); len(fp) == 1 {
+				out[fp[0].Name()] = st.Val
+			}
+		})
+	}
+	if !constant || len(out) == 0 {
+		return nil, false
+	}
+	return out, true
+}
